@@ -10,7 +10,7 @@ from . import flwgen as G
 
 
 def run(pid, tier, seed, *, mc, gen, rand_fn, mon, assumptions, rule, level="model_checking",
-        regress=(), extra_facts=None, mon_env=None, post_scen=None, sub="flw", cap=None, shard_env=None):
+        regress=(), extra_facts=None, mon_env=None, post_scen=None, sub="flw", cap=None, shard_env=None, conform=True):
     """mc: list of (module, cfg, workers, timeout) model-checking runs whose invariants must hold.
     gen: list of (module, cfg, extra_cfg, tag) scenario-generating TLC runs (REPLAY lines).
     rand_fn(rng, tier, next_sc) -> list of scenarios.
@@ -73,8 +73,20 @@ def run(pid, tier, seed, *, mc, gen, rand_fn, mon, assumptions, rule, level="mod
                         s.setdefault("origin", "regress:" + rf)
                         scens.append(s)
                         nreg += 1
+        for s_ in scens:
+            s_["conf"] = conform and C.conformable(s_)
         # 3. execute on the real code, 4. judge with the TLA+ monitor
         res = C.run_sharded(pid, mon, scens, wd, sub=sub, mon_env=mon_env, shard_env=shard_env)
+        # 4b. conform mode: is every trace of a scenario inside Flw.tla's domain a behaviour of Flw.tla?
+        cf = {"scenarios": 0, "events": 0, "drifts": []}
+        if conform:
+            cf = C.conform(res["traces"], wd)
+            C.log(f"[{pid}] conform mode (TraceFlw.tla): {cf['scenarios']} traces / {cf['events']} events checked against Flw.tla - "
+                  + ("all accepted: every event is explained by the specification's action with EQUAL projected state"
+                     if not cf["drifts"] else f"{len(cf['drifts'])} not accepted"))
+            for (dsc, dn, dev) in cf["drifts"][:10]:
+                C.log(f"NOTE conformance-drift: scenario {dsc} event {dn} ({dev}) is not a step of Flw.tla - the code no longer "
+                      f"follows the detailed model there (no property verdict; the monitors decide the property)")
         C.log(f"[{pid}] executed {res['scenarios']} scenarios / {res['events']} events on the real code "
               f"({n_model} from TLC, {len(rnd)} random, {nreg} regression); judged by {mon}.tla in {res['wall_s']}s; "
               f"{len(res['bads'])} predicate failures; counters {res['counts']}")
@@ -90,6 +102,9 @@ def run(pid, tier, seed, *, mc, gen, rand_fn, mon, assumptions, rule, level="mod
             "states": states, "transitions": transitions,
             "traces_validated_against_impl": res["scenarios"],
             "events_judged": res["events"],
+            "conform_mode": {"spec": "TraceFlw.tla", "traces_checked": cf["scenarios"], "events_checked": cf["events"],
+                             "accepted": cf["scenarios"] - len({d[0] for d in cf["drifts"]}),
+                             "drifts": [{"sc": d[0], "n": d[1], "ev": d[2]} for d in cf["drifts"][:20]]},
             "evaluations": res["scenarios"], "distinct_nontrivial": distinct,
             "rule": rule,
             "samples": C.sample_traces(res["traces"]),
